@@ -1,6 +1,7 @@
 import Deltio.Lemmas.SubRun
 import Deltio.Lemmas.Order
 import Deltio.Props.C09
+import Deltio.Lemmas.Fanout
 /-
   C08 — Publish order is delivery order; message ids are issued in order.
 -/
@@ -140,5 +141,37 @@ example :
   decide
 
 example : (mkMsgs 2 0 0 [([1], []), ([2], []), ([3], [])] 0).map (·.id) = [8589934593, 8589934594, 8589934595] := by decide
+
+/-! ### C08 under ALL interleavings of concurrent publishers (slice P6, `Proto/Fanout.lean`) -/
+
+/-- **Posts reach every subscription in accept order, under any schedule.** For every subscription,
+    the sequence of batches its actor has handled followed by those still in its mailbox is ordered
+    by id range: every id of an earlier batch is below every id of a later one — the order in
+    which the topic actor accepted the publishes. (With `C08_first_delivery_order`, which takes
+    posts in id order as its hypothesis, first deliveries are in publish order.) -/
+theorem C08_posts_in_order (cap : Nat) (s : P6.State) (h : P6.Reachable (P6.init cap) s) (x : Nat) :
+    (P6.seq s x).Pairwise P6.Before :=
+  (P6.inv_reachable h).sorted x
+
+/-- **Ids are issued in accept order.** The id ranges of all publish turns, in the order the topic
+    actor accepted them, are disjoint and increasing, whatever the interleaving of publishers. -/
+theorem C08_accept_order (cap : Nat) (s : P6.State) (h : P6.Reachable (P6.init cap) s) :
+    (P6.turnBatches s).Pairwise P6.Before :=
+  (P6.inv_reachable h).turnsSorted
+
+/-- A batch is contiguous and enters a subscription's queue as a whole: one post carries the whole
+    id range `lo+1 … lo+n` of its publish turn (there is no label that splits a batch), and no id of
+    any batch exceeds the topic's counter. -/
+theorem C08_batches_below_counter (cap : Nat) (s : P6.State) (h : P6.Reachable (P6.init cap) s) (x : Nat)
+    (b : P6.Batch) (hb : b ∈ P6.seq s x) : b.lo + b.n ≤ s.ctr :=
+  (P6.inv_reachable h).below x b hb
+
+/-! non-vacuity: two racing publishers at capacity 1; subscription 1 handles the batches in accept order -/
+example :
+    (P6.run (P6.init 1)
+      [.cliAttach 1, .topicTake, .cliPublish 7 2, .topicTake, .cliPublish 8 3, .postDone 1, .reply, .topicTake,
+       .subTake 1, .postDone 1, .subTake 1, .reply]).map
+      (fun s => (s.taken 1, P6.turnBatches s, s.ctr)) =
+    some (([P6.Batch.mk 0 2, P6.Batch.mk 2 3], [P6.Batch.mk 0 2, P6.Batch.mk 2 3], 5) : List P6.Batch × List P6.Batch × Nat) := by decide
 
 end Deltio
